@@ -996,6 +996,10 @@ func (c *c17Checker) scenarios(m *c17Module, rng *core.Rng, full bool) []c17Scen
 		}
 		out = append(out, c17Scenario{Class: p.class, Patterns: p.patterns, Flags: fs, Ignore: p.ignore, Prior: p.prior})
 	}
+	// -dir from another working directory combined with a relative -out: the output belongs under the
+	// invocation directory, not under the module
+	out = append(out, c17Scenario{Class: "all", Cwd: "<elsewhere>", UseDir: true, Patterns: []string{"./..."}, Prior: "relative-out", Ignore: true})
+	out = append(out, c17Scenario{Class: "subtree-good-only", Cwd: "<elsewhere>", UseDir: true, Patterns: []string{"./alpha/...", "./da-sh/..."}, Prior: "relative-out", Flags: flagsets[i%8]})
 	// the syscall monitor on the identical state
 	out = append(out, c17Scenario{Class: "all", Patterns: []string{"./..."}, Prior: "identical", Strace: true, Ignore: true})
 	out = append(out, c17Scenario{Class: "subtree-good-only", Patterns: []string{"./alpha/...", "./tags1"}, Prior: "stale", Strace: true})
